@@ -199,7 +199,7 @@ func mkHost(kind string, tab []gts.Feature, b []byte) gts.Sequence {
 
 func (m c02) Run(c *fw.Ctx) {
 	// A. systematic small universe.
-	maxL := c.Pick(5, 7)
+	maxL := c.Pick(6, 7)
 	for L := 1; L <= maxL; L++ {
 		uni := gen.Universe(L, 3)
 		hostB := gen.UniqueBytes(0, L)
@@ -223,7 +223,7 @@ func (m c02) Run(c *fw.Ctx) {
 		c.Exhaustive(fmt.Sprintf("Universe(L=%d,arity<=3) x i x n{0,1,3} x {Insert,Embed}", L))
 	}
 	// B. seeded larger cases.
-	N := c.Pick(1500, 120000)
+	N := c.Pick(15000, 120000)
 	r := c.Rng
 	for it := 0; it < N; it++ {
 		if !c.NextOwn() {
